@@ -341,7 +341,10 @@ def r8_4(ctx):
             try:
                 ps = pieces(res)
             except FmtError as e:
-                if peel(res).kind == "call" and method_name(peel(res).a) == "Escaper::escaped_printable":
+                bare = peel(res)
+                while bare.kind == "call" and method_name(bare.a) in ("str::replace", "String::replace") and bare.kids:
+                    bare = peel(bare.kids[0])      # (the backslash doubling of the `escaped` kind, R8.10)
+                if bare.kind == "call" and method_name(bare.a) == "Escaper::escaped_printable":
                     seen.add("{expr}")  # the bare rendering, returned without a format!
                     continue
                 ctx.bad("writer:%r" % q, w.where(), "result is not a decodable format!: %s" % e)
